@@ -1,8 +1,9 @@
 /-
   Property C01 — diff-then-patch reproduces the target (v2 library).
-  Statement file. Proofs: JdProofs/DiffPatchList.lean (namespace `Jd.DPL`: the diff side, against the
-  reference interpreter of hunks) COMPOSED HERE with JdProofs/StrictPatch.lean (the library's patch
-  code = the reference interpreter on strict hunks).
+  Statement file. Proofs: LIST reading: JdProofs/DiffPatchList.lean (namespace `Jd.DPL`: the diff
+  side, against the reference interpreter of hunks) COMPOSED HERE with JdProofs/StrictPatch.lean (the
+  library's patch code = the reference interpreter on strict hunks). SET / MULTISET readings:
+  JdProofs/SetDiffPatch.lean (namespace `Jd.SetDP`), directly about the library's patch code.
 
   Model side: `diffM o a b` (JdModel/Diff.lean) is `a.Diff(b, options...)`; `patchM n d`
   (= `patchAll true n d`, JdModel/Patch.lean) is `n.Patch(d)` on the in-memory diff value;
@@ -21,13 +22,26 @@
     `diff_then_apply_reference` because it is sharper (it names the result).
   * The result of `patchM` is equal to the reference result up to the Go dynamic type of array nodes
     (`untag`); `equals` / `equivB` in list mode do not see that type, so the headline needs no `untag`.
-  * MERGE strategy: JdProofs/MergeProofs.lean proves the RENDERED statements C11 / C12 (files
-    JdProps/C11.lean, C12.lean); it does NOT contain the in-memory statement
-    `patchM a (diffM [MERGE] a b)` Equals `b`, so nothing is restated here for MERGE.
-  * SET / MULTISET / SetKeys: the patch side is in JdProps/C08.lean; the diff side is covered by
-    correspondence and oracle only. No theorem here.
+  * SET and MULTISET readings of arrays (`dispatchTag o = .set` / `.mset`), no SetKeys
+    (`keysOf o = none`), STRICT strategy, no Precision (`precOf o = 0`): `diff_then_patch_set`,
+    `diff_then_patch_mset`, `diff_then_patch_setmodes` (either variant `sw` of the patch code; the
+    keyed-member branch of `jsonSet.patch` is never reached), and for the literal library calls
+    `a.Patch(a.Diff(b, SET))` / `a.Patch(a.Diff(b, MULTISET))`: `patchM_diffM_set`,
+    `patchM_diffM_mset`:
+        ∃ r, patchM a (diffM o a b) = .ok r ∧ equivB o r b = true ∧ equals o r b = true.
+    Arrays may be nested anywhere (sets of sets, sets in objects in sets); members are arbitrary
+    documents. The hypothesis `HashFaithful` cannot be dropped from the `equivB` part
+    (`alias_needs_hashFaithful`, known finding KF-C04-alias), nor can `memOK`
+    (`void_member_not_equivalent`).
+  * NOT PROVED — MERGE strategy in memory: JdProofs/MergeProofs.lean proves the RENDERED statements
+    C11 / C12 (files JdProps/C11.lean, C12.lean); it does NOT contain the in-memory statement
+    `patchM a (diffM [MERGE] a b)` Equals `b`, so nothing is restated here for MERGE (nor for SET /
+    MULTISET combined with MERGE).
+  * NOT PROVED — SetKeys (sets of objects identified by keys): the patch side is in JdProps/C08.lean;
+    the diff side is covered by correspondence and oracle only (known finding KF-C01-identperm lives
+    there). Also not proved: SET / MULTISET together with a Precision option.
 
-  HYPOTHESES (all of `Jd.DPL.diffM_list_correct`)
+  HYPOTHESES of the LIST theorems (all of `Jd.DPL.diffM_list_correct`)
     `a`, `b` list documents (`listDoc`: no set / multiset typed array node), `wf` (unique sorted
     object keys, what a Go map guarantees), `finiteNums`, `memOK` (no void member inside);
     `FloatLaws` (IEEE-754 reflexivity / symmetry of `|x - y| ≤ eps`; `Float` is opaque to the kernel);
@@ -36,9 +50,21 @@
     `ZeroOK a b`: no `0` / `-0` pair between the numbers of `a` and of `b` (needed before the repair
        of D5b; stronger than necessary on the repaired code, kept because the proof uses it);
     `PrecMono o` (only with a Precision option): within `0` implies within `eps`.
+
+  HYPOTHESES of the SET / MULTISET theorems (all of `Jd.SetDP.diff_then_patch_setmodes`)
+    `a.setDoc`, `b.setDoc` = `rawDoc` (as read from JSON / YAML: every array a plain `jsonArray`) ∧
+       `wf` ∧ `finiteNums` ∧ `noNegZero`; `memOK` (no void object member: void stands for "absent",
+       a void member of the target is deleted by the patch; the readers never produce void);
+    `HashFaithful o (subterms a ++ subterms b)`: among the sub-terms of `a` and `b`, equal hash codes
+       only for equivalent nodes — no FNV-1a collision and no pre-image alias (`[[]]` / `[""]`). Set
+       members ARE their hash codes in the library; without it the patched document still `Equals`
+       `b` on the witness but is not equivalent to it;
+    `FloatEq0` (`|x - y| ≤ +0` only for `x = y`: equivalent numbers have equal hash codes) and
+       `FloatLaws` (`Equals` is reflexive: the patch compares a removed value with itself).
 -/
 import JdProofs.DiffPatchList
 import JdProofs.StrictPatch
+import JdProofs.SetDiffPatch
 
 namespace Jd.Props.C01
 open Jd Jd.Spec Jd.DPL
@@ -307,10 +333,106 @@ theorem diff_then_apply_scalar_arrays (L : FloatLaws) (o : Opts) (ho : dispatchT
       (PrecMono o → equivB o (.arr t'' zs) (.arr t' ys) = true) :=
   diffM_list_correct_scalar_arrays L o ho hm t t' xs ys ha hb hsc HashOK
 
+/-! ## The property, SET and MULTISET readings of arrays, strict strategy, no SetKeys -/
+
+/-- **C01, SET or MULTISET reading** (any option set that selects it, either variant `sw` of the
+    patch code; `sw = true` is the library): the hunks of `a.Diff(b)` apply to `a` in sequence with
+    the library's own patch code, and the result is equal to `b`, both for the advertised
+    equivalence (`equivB`: arrays compared as sets / multisets, no hashes) and for the library's
+    `Equals` -/
+theorem diff_then_patch_setmodes (F : FloatEq0) (L : FloatLaws) (sw : Bool) (o : Opts)
+    (hm : dispatchTag o = .set ∨ dispatchTag o = .mset) (hk : keysOf o = none)
+    (hmg : isMerge o = false) (hp : precOf o = 0) (a b : Json)
+    (ha : a.setDoc = true) (hb : b.setDoc = true)
+    (ha' : DPL.memOK a = true) (hb' : DPL.memOK b = true)
+    (HF : HashFaithful o (subterms a ++ subterms b)) :
+    ∃ r, patchAll sw a (diffM o a b) = .ok r ∧ equivB o r b = true ∧ equals o r b = true :=
+  SetDP.diff_then_patch_setmodes F L sw o hm hk hmg hp a b ha hb ha' hb' HF
+
+/-- **C01, SET reading** -/
+theorem diff_then_patch_set (F : FloatEq0) (L : FloatLaws) (sw : Bool) (o : Opts)
+    (hd : dispatchTag o = .set) (hk : keysOf o = none) (hmg : isMerge o = false)
+    (hp : precOf o = 0) (a b : Json) (ha : a.setDoc = true) (hb : b.setDoc = true)
+    (ha' : DPL.memOK a = true) (hb' : DPL.memOK b = true)
+    (HF : HashFaithful o (subterms a ++ subterms b)) :
+    ∃ r, patchAll sw a (diffM o a b) = .ok r ∧ equivB o r b = true ∧ equals o r b = true :=
+  SetDP.diff_then_patch_set F L sw o hd hk hmg hp a b ha hb ha' hb' HF
+
+/-- **C01, MULTISET reading** -/
+theorem diff_then_patch_mset (F : FloatEq0) (L : FloatLaws) (sw : Bool) (o : Opts)
+    (hd : dispatchTag o = .mset) (hk : keysOf o = none) (hmg : isMerge o = false)
+    (hp : precOf o = 0) (a b : Json) (ha : a.setDoc = true) (hb : b.setDoc = true)
+    (ha' : DPL.memOK a = true) (hb' : DPL.memOK b = true)
+    (HF : HashFaithful o (subterms a ++ subterms b)) :
+    ∃ r, patchAll sw a (diffM o a b) = .ok r ∧ equivB o r b = true ∧ equals o r b = true :=
+  SetDP.diff_then_patch_mset F L sw o hd hk hmg hp a b ha hb ha' hb' HF
+
+/-- the headline for the library call `a.Patch(a.Diff(b, SET))`: it succeeds and yields a document
+    that `Equals` `b` under SET (and is equivalent to `b` read as sets) -/
+theorem patchM_diffM_set (F : FloatEq0) (L : FloatLaws) (a b : Json)
+    (ha : a.setDoc = true) (hb : b.setDoc = true)
+    (ha' : DPL.memOK a = true) (hb' : DPL.memOK b = true)
+    (HF : HashFaithful [.set] (subterms a ++ subterms b)) :
+    ∃ r, patchM a (diffM [.set] a b) = .ok r ∧ equivB [.set] r b = true ∧
+      equals [.set] r b = true :=
+  SetDP.patchM_diffM_set F L a b ha hb ha' hb' HF
+
+/-- the headline for the library call `a.Patch(a.Diff(b, MULTISET))` -/
+theorem patchM_diffM_mset (F : FloatEq0) (L : FloatLaws) (a b : Json)
+    (ha : a.setDoc = true) (hb : b.setDoc = true)
+    (ha' : DPL.memOK a = true) (hb' : DPL.memOK b = true)
+    (HF : HashFaithful [.mset] (subterms a ++ subterms b)) :
+    ∃ r, patchM a (diffM [.mset] a b) = .ok r ∧ equivB [.mset] r b = true ∧
+      equals [.mset] r b = true :=
+  SetDP.patchM_diffM_mset F L a b ha hb ha' hb' HF
+
+/-! ### Counter-witnesses: the hypotheses of the set-mode theorems are needed -/
+
+/-- `HashFaithful` cannot be dropped from the `equivB` part (known finding KF-C04-alias): `[[]]` and
+    `[""]` are documents of the domain, their members `[]` and `""` have the same hash code under
+    SET, so the library's `Equals` holds them equal (the diff is empty, the patched document is `a`
+    itself), but they are not equivalent as sets -/
+theorem alias_needs_hashFaithful :
+    SetDP.Example.alA.setDoc = true ∧ SetDP.Example.alB.setDoc = true ∧
+    hashCode [.set] (.arr .raw []) = hashCode [.set] (.str "") ∧
+    equals [.set] SetDP.Example.alA SetDP.Example.alB = true ∧
+    equivB [.set] SetDP.Example.alA SetDP.Example.alB = false :=
+  SetDP.Example.alias_needs_hashFaithful
+
+/-- `memOK` cannot be dropped: `{"k":void}` satisfies `setDoc`, and `{}` (what patching towards it
+    yields: a void member is a deletion) is not equivalent to it -/
+theorem void_member_not_equivalent :
+    (Json.obj [("k", .void)]).setDoc = true ∧
+    equivB [.set] (.obj []) (.obj [("k", .void)]) = false :=
+  SetDP.Example.void_member_not_equiv
+
 /-! ## Non-vacuity
 
   `[true, 1, [1], null]` → `[false, 1, [1, 1], null, null]` (three hunks, one inside the nested
-  list) satisfies every hypothesis, so the library patches it to a document equal to the target. -/
+  list) satisfies every hypothesis of the list theorems, so the library patches it to a document
+  equal to the target.
+  `{"s":[true,null,{"k":null}]}` → `{"s":[{"k":null},null,false],"t":null}` (a set hunk below the
+  key `s`, an added member, an object member of the set) satisfies every hypothesis of the set-mode
+  theorems (`HashFaithful` checked on its 13 sub-terms), under SET and under MULTISET; only the
+  IEEE-754 laws are left as assumptions. -/
+
+example (F : FloatEq0) (L : FloatLaws) :
+    ∃ r, patchM SetDP.Example.exA (diffM [.set] SetDP.Example.exA SetDP.Example.exB) = .ok r ∧
+      equivB [.set] r SetDP.Example.exB = true ∧ equals [.set] r SetDP.Example.exB = true :=
+  SetDP.Example.ex_set F L
+
+example (F : FloatEq0) (L : FloatLaws) :
+    ∃ r, patchM SetDP.Example.exA (diffM [.mset] SetDP.Example.exA SetDP.Example.exB) = .ok r ∧
+      equivB [.mset] r SetDP.Example.exB = true ∧ equals [.mset] r SetDP.Example.exB = true :=
+  SetDP.Example.ex_mset F L
+
+example : SetDP.Example.exA.setDoc = true ∧ SetDP.Example.exB.setDoc = true ∧
+    DPL.memOK SetDP.Example.exA = true ∧ DPL.memOK SetDP.Example.exB = true ∧
+    HashFaithful [.set] (subterms SetDP.Example.exA ++ subterms SetDP.Example.exB) ∧
+    HashFaithful [.mset] (subterms SetDP.Example.exA ++ subterms SetDP.Example.exB) :=
+  ⟨SetDP.Example.ex_docs.1, SetDP.Example.ex_docs.2.1, SetDP.Example.ex_docs.2.2.1,
+    SetDP.Example.ex_docs.2.2.2, SetDP.Example.ex_hashFaithful_set,
+    SetDP.Example.ex_hashFaithful_mset⟩
 
 example (L : FloatLaws) :
     ∃ r, patchM Example.exA (diffM [] Example.exA Example.exB) = .ok r ∧
